@@ -3,6 +3,7 @@ import FFVerif.Props.C11Deriv
 import FFVerif.Props.C07
 import FFVerif.Props.C11Asm
 import FFVerif.Props.C11AsmDeriv
+import FFVerif.Props.C11Infid
 import FFVerif.Pins.pinGetFFDerivative
 import FFVerif.Pins.pinGradControlMatrix
 import FFVerif.Pins.pinInfidelityDerivative
@@ -60,6 +61,17 @@ import FFVerif.Pins.C11_gradient_einsum_shape
 #print axioms FFVerif.C11.liouville_derivative_contraction
 #print axioms FFVerif.C11.liouville_derivative_assembly
 #print axioms FFVerif.C11.liouville_derivative_of_pulse
+#print axioms FFVerif.C11.infidelityDeriv_hasDerivAt
+#print axioms FFVerif.C11.infidelityDeriv_uncorrected_hasDerivAt_sens
+#print axioms FFVerif.C11.infidelityDeriv_hasDerivAt_sens
+#print axioms FFVerif.C11.infidelityDeriv_selection
+#print axioms FFVerif.C11.identity_component_independent_of_control
+#print axioms FFVerif.C11.fidelityIntegral_vs_numeric_infidelity
+#print axioms FFVerif.C11.infidelityDeriv_is_numeric_infidelity_deriv
+#print axioms FFVerif.C11.infidelityDeriv_uncorrected_gap
+#print axioms FFVerif.C11.identityGap_vanishes
+#print axioms FFVerif.C11.identityGap_is_subtracted
+#print axioms FFVerif.C11.infidelityDeriv_is_numeric_infidelity_deriv_sens
 #print axioms FFVerif.C11.ctrlmatStepM_entry
 #print axioms FFVerif.C11.ctrlmatStepM_smul
 #print axioms FFVerif.C11.ctrlmatStepDeriv_entry
